@@ -122,31 +122,49 @@ pub fn c04_env(_req: &J) -> J {
     use novasmt::{Database, InMemoryCas};
     use tmelcrypt::HashVal;
     let r = catch_unwind(AssertUnwindSafe(|| {
-        // LoadImm(HADDR_SPENDER_INDEX = 9); PushI 0; Eql   => true only for the input at position 0
-        let cov = Covenant::from_ops(&[OpCode::LoadImm(9), OpCode::PushI(0u8.into()), OpCode::Eql]);
+        // position-dependent covenants, each true only for the input at position 0, reading the spender index
+        // (HADDR_SPENDER_INDEX = 9) in different ways
+        let family: Vec<(&str, Vec<OpCode>)> = vec![
+            ("LoadImm(9) == 0", vec![OpCode::LoadImm(9), OpCode::PushI(0u8.into()), OpCode::Eql]),
+            ("PushI 9; Load == 0", vec![OpCode::PushI(9u8.into()), OpCode::Load, OpCode::PushI(0u8.into()), OpCode::Eql]),
+            ("PushI 4; PushI 5; Add; Load == 0", vec![OpCode::PushI(4u8.into()), OpCode::PushI(5u8.into()), OpCode::Add, OpCode::Load, OpCode::PushI(0u8.into()), OpCode::Eql]),
+        ];
         let db = Database::new(InMemoryCas::default());
         let mut st: UnsealedState<InMemoryCas> = crate::util::genesis(NetID::Custom02, 0, 0).realize(&db);
         let sealed = st.clone().seal(None);
         st = sealed.next_unsealed();
         let mk = |n: u8| CoinID { txhash: TxHash(HashVal([n; 32])), index: 0 };
-        let cdh = CoinDataHeight { coin_data: CoinData { covhash: cov.hash(), value: CoinValue(500), denom: Denom::Mel, additional_data: Default::default() }, height: 0.into() };
-        vh::insert_coin(&mut st, mk(1), cdh.clone());
-        vh::insert_coin(&mut st, mk(2), cdh.clone());
-        let tx = Transaction {
-            kind: TxKind::Normal,
-            inputs: vec![mk(1), mk(2)],
-            outputs: vec![CoinData { covhash: cov.hash(), value: CoinValue(1000), denom: Denom::Mel, additional_data: Default::default() }],
-            fee: CoinValue(0),
-            covenants: vec![cov.to_bytes()],
-            data: Default::default(),
-            sigs: vec![],
-        };
         let last_header = sealed.header();
-        let approvals: Vec<bool> = (0..2u8).map(|i| {
-            cov.execute(&tx, Some(CovenantEnv { parent_coinid: mk(i + 1), parent_cdh: cdh.clone(), spender_index: i, last_header }))
-                .map(|v| v.into_bool()).unwrap_or(false)
-        }).collect();
-        let accepted = st.clone().apply_tx(&tx).is_ok();
+        let mut variants = vec![];
+        let mut accepted_any_unapproved = false;
+        let mut all_approve_all = true;
+        let first_cov = Covenant::from_ops(&family[0].1);
+        for (vi, (name, ops)) in family.iter().enumerate() {
+            let cov = Covenant::from_ops(ops);
+            let cdh = CoinDataHeight { coin_data: CoinData { covhash: cov.hash(), value: CoinValue(500), denom: Denom::Mel, additional_data: Default::default() }, height: 0.into() };
+            let (c1, c2) = (mk(0x10 + 2 * vi as u8), mk(0x11 + 2 * vi as u8));
+            let mut stv = st.clone();
+            vh::insert_coin(&mut stv, c1, cdh.clone());
+            vh::insert_coin(&mut stv, c2, cdh.clone());
+            let tx = Transaction {
+                kind: TxKind::Normal,
+                inputs: vec![c1, c2],
+                outputs: vec![CoinData { covhash: cov.hash(), value: CoinValue(1000), denom: Denom::Mel, additional_data: Default::default() }],
+                fee: CoinValue(0),
+                covenants: vec![cov.to_bytes()],
+                data: Default::default(),
+                sigs: vec![],
+            };
+            let approvals: Vec<bool> = [c1, c2].iter().enumerate().map(|(i, c)| {
+                cov.execute(&tx, Some(CovenantEnv { parent_coinid: *c, parent_cdh: cdh.clone(), spender_index: i as u8, last_header }))
+                    .map(|v| v.into_bool()).unwrap_or(false)
+            }).collect();
+            let accepted = stv.apply_tx(&tx).is_ok();
+            let all = approvals.iter().all(|b| *b);
+            if accepted && !all { accepted_any_unapproved = true; }
+            all_approve_all &= all;
+            variants.push(json!({"covenant": name, "approvals": approvals, "accepted": accepted}));
+        }
         // a covenant that fails (stack underflow) and one that returns 0 must both refuse
         let mut refusing_accepted = vec![];
         for (n, ops) in [(7u8, vec![OpCode::Add]), (8u8, vec![OpCode::PushI(0u8.into())])] {
@@ -157,7 +175,7 @@ pub fn c04_env(_req: &J) -> J {
             let tx2 = Transaction {
                 kind: TxKind::Normal,
                 inputs: vec![mk(n)],
-                outputs: vec![CoinData { covhash: cov.hash(), value: CoinValue(500), denom: Denom::Mel, additional_data: Default::default() }],
+                outputs: vec![CoinData { covhash: first_cov.hash(), value: CoinValue(500), denom: Denom::Mel, additional_data: Default::default() }],
                 fee: CoinValue(0),
                 covenants: vec![bad.to_bytes()],
                 data: Default::default(),
@@ -169,13 +187,23 @@ pub fn c04_env(_req: &J) -> J {
         }
         // a coin whose covenant is not carried by the transaction
         let mut st3 = st.clone();
-        let tx3 = Transaction { covenants: vec![], ..tx.clone() };
+        let cdh = CoinDataHeight { coin_data: CoinData { covhash: first_cov.hash(), value: CoinValue(500), denom: Denom::Mel, additional_data: Default::default() }, height: 0.into() };
+        vh::insert_coin(&mut st3, mk(0x30), cdh);
+        let tx3 = Transaction {
+            kind: TxKind::Normal,
+            inputs: vec![mk(0x30)],
+            outputs: vec![CoinData { covhash: first_cov.hash(), value: CoinValue(500), denom: Denom::Mel, additional_data: Default::default() }],
+            fee: CoinValue(0),
+            covenants: vec![],
+            data: Default::default(),
+            sigs: vec![],
+        };
         let missing_accepted = st3.apply_tx(&tx3).is_ok();
-        (accepted, approvals, refusing_accepted, missing_accepted)
+        (accepted_any_unapproved, all_approve_all, variants, refusing_accepted, missing_accepted)
     }));
     match r {
-        Ok((accepted, approvals, refusing, missing)) => json!({"panicked": false, "accepted": accepted, "approvals": approvals,
-            "all_inputs_approve": approvals.iter().all(|b| *b), "refusing_covenants_accepted": refusing, "missing_script_accepted": missing}),
+        Ok((accepted, all, variants, refusing, missing)) => json!({"panicked": false, "accepted": accepted, "variants": variants,
+            "all_inputs_approve": all, "refusing_covenants_accepted": refusing, "missing_script_accepted": missing}),
         Err(_) => json!({"panicked": true, "msg": crate::last_panic()}),
     }
 }
